@@ -4,6 +4,7 @@ under proof, the registration/dispatch histories (incl. overlapping dispatches o
 import importlib
 import contracts.events  # noqa: F401
 import contracts.events_once  # noqa: F401
+import contracts.events_listeners  # noqa: F401
 from pyvc.contract import FUNCS
 from vlib.proof import run_proofs
 from vlib.bounded import run_bounded
@@ -21,5 +22,6 @@ def run(run, tier, seed, args):
         "getattr(target, '_sa_propagate_class_events', True) is true (ordinary event targets); the _empty_collection arm is not under proof",
         "the _clslevel WeakKeyDictionary is modelled as a dict (no entry disappears during the call)",
         "under proof: _ClsLevelDispatch.update_subclass; _CompoundListener._exec_once_impl / exec_once / exec_once_unless_exception in the monitor reading (DESIGN §11.3): shared flag _exec_once and two ghost counters, invariant `ok + final <= 1 and _exec_once == (ok + final == 1)` proved at every release of the exec-once mutex and assumed at every acquisition, counters monotone (rely/guarantee); the dispatch itself (self(*args, **kw)) is an abstract callee that may raise",
-        "_ListenerCollection / _EventKey / registry, util.only_once (closure) and _exec_w_sync_on_first_run are covered by the bounded complement only; the mutex is whatever _get_exec_once_mutex() returns (its lazy creation under mini_gil is not under proof)",
+        "_CompoundListener.__call__ (every class-level then every instance-level listener once, in sequence order; ghost call log), _ListenerCollection.append / insert / remove and _EventKey.append_to_list / prepend_to_list / remove_from_list are under proof; the registry bookkeeping (_stored_in_collection: nested weak-key dictionaries) is an assumed contract",
+        "_ListenerCollection._update / clear, _JoinedListener, util.only_once (closure) and _exec_w_sync_on_first_run are covered by the bounded complement only; the mutex is whatever _get_exec_once_mutex() returns (its lazy creation under mini_gil is not under proof)",
     ]
